@@ -124,6 +124,7 @@ SB_INV = [
     "len(available_jobs) <= len(A0())",
     # available_jobs is always a suffix of the list computed before the loop
     "forall(i, range(len(available_jobs)), available_jobs[i] == A0()[CUR() + i])",
+    "forall(j, range(CUR(), len(A0())), A0()[j] == available_jobs[j - CUR()])",
     "num_submitted_jobs == len(_submitted_jobs)",
     "self._batch_index - old(self._batch_index) == ghost.runs - old(ghost.runs) and self._batch_index >= old(self._batch_index)",
     "implies(len(_submitted_jobs) > 0, self._batch_index > old(self._batch_index))",
@@ -236,3 +237,95 @@ contract("AsyncHpcSubmitter.create_from_id", file=F, fresh_result=True,
                   "result._mgr == hpc_manager and result._status_collector == status_collector",
                   "empty(result.blocking) and result.g_launched == 0 and not result.g_canceled"],
          modifies=HEAP_ASYNC)
+
+# ---- completion collection and failure cancellation at submitter level (C02, C04) ---------------------------
+contract("HpcSubmitter._cancel_job", file=F, fresh_result=True,
+         params=[("self", "Ref[HpcSubmitter]"), ("job", "Ref[Job]"), ("aggregator", "Ref[ResultsAggregator]")],
+         returns="Ref[Result]",
+         ensures=[
+             # C04: a canceled job is final, has no blockers left, and gets exactly one 'canceled' row with a non-zero code
+             "job.state == JobState.DONE and empty(job.blocked_by)",
+             "result.name == job.name and result.return_code == 1 and result.status == JobCompletionStatus.CANCELED.value and isnone(result.hpc_job_id)",
+             "forall(x, Name, (x in ghost.collected) == (x in old(ghost.collected) or x == job.name))",
+             "forall(x, Name, (x in ghost.collected_failed) == (x in old(ghost.collected_failed) or x == job.name))",
+             "unchanged(Job.state, job) and unchanged(Job.blocked_by, job)",
+             "unchanged(Result.name, retval) and unchanged(Result.return_code, retval)",
+         ],
+         raises={"Timeout": {"ensures": [], "frame": False}},
+         modifies=["job.state", "job.blocked_by", "ghost.collected", "ghost.collected_failed",
+                   "Result.name", "Result.return_code", "Result.status", "Result.exec_time_s", "Result.completion_time", "Result.hpc_job_id"])
+
+NS_, D_ = "JobState.NOT_SUBMITTED", "JobState.DONE"
+UC_DEFS = {
+    "CJL": ([], "val(self._cluster._job_status).jobs"),
+    "NCJ": ([], "len(val(self._cluster._job_status).jobs)"),
+    "NC": ([], "newly_completed"),
+    "injobs": (["j"], "exists(m, range(NCJ()), CJL()[m] == j)"),
+}
+# per-job two-state facts (C02 / C04 / C09), over every persisted job
+UC_JOBS = [
+    # a job changes state only by being canceled here: NOT_SUBMITTED -> DONE
+    f"forall(m, range(NCJ()), CJL()[m].state == old(CJL()[m].state) or (old(CJL()[m].state) == {NS_} and CJL()[m].state == {D_} "
+    "and exists(k, range(len(canceled_jobs)), canceled_jobs[k] == CJL()[m])))",
+    # remaining blockers only shrink ...
+    "forall(m, range(NCJ()), subset(CJL()[m].blocked_by, old(CJL()[m].blocked_by)))",
+    # ... and a blocker disappears only when it has a collected result (C02), or the job itself was canceled
+    f"forall(m, range(NCJ()), forall(x, old(CJL()[m].blocked_by), x in CJL()[m].blocked_by or x in NC() or CJL()[m].state == {D_}))",
+    "unchanged(Job.name) and unchanged(Job.cancel_on_blocking_job_failure) and val(self._cluster._job_status).jobs == old(val(self._cluster._job_status).jobs)",
+    "self._cluster == old(self._cluster) and self._cluster._job_status == old(self._cluster._job_status)",
+]
+UC_CANCELED = [
+    # C04 (sound): every canceled job was a flagged, not-submitted job one of whose blockers failed or was canceled
+    f"forall(j, canceled_jobs, injobs(j) and old(j.state) == {NS_} and j.state == {D_} "
+    "and empty(j.blocked_by) and j.cancel_on_blocking_job_failure and j.name in ghost.collected_failed "
+    "and exists(b, old(j.blocked_by), b in ghost.collected_failed))",
+    "forall(k, range(len(canceled_jobs)), forall(m, range(k), canceled_jobs[k].name != canceled_jobs[m].name))",
+]
+UC_COMMON = ["subset(NC(), ghost.collected)",
+             "subset(old(ghost.collected), ghost.collected) and subset(old(ghost.collected_failed), ghost.collected_failed)"] + UC_JOBS + UC_CANCELED
+UC_PENDING = [
+    # results of the jobs canceled in the previous pass, not yet folded into newly_completed
+    "forall(i, range(len(new_results)), allocated(new_results[i]) and new_results[i].return_code != 0 and new_results[i].name in ghost.collected "
+    "and new_results[i].name in ghost.collected_failed)",
+    "forall(k, range(len(canceled_jobs)), canceled_jobs[k].name in NC() or exists(i, range(len(new_results)), new_results[i].name == canceled_jobs[k].name))",
+]
+contract("HpcSubmitter._update_completed_jobs", file=F,
+         params=[("self", "Ref[HpcSubmitter]")], returns="Tuple[Set[Name],List[Ref[Job]]]",
+         locals={"newly_completed": "Set[Name]", "canceled_jobs": "List[Ref[Job]]", "new_results": "List[Ref[Result]]", "failed_jobs": "Set[Name]"},
+         defs=UC_DEFS,
+         requires=["not isnone(self._cluster._job_status)", "distinct_job_names(self._cluster)"],
+         loops={
+             1: {"invariant": UC_COMMON + UC_PENDING + [
+                 "need_to_rerun or len(new_results) == 0",
+                 # C04 (no stale blocker): once a pass ends without a cancel, no not-submitted job waits for a name that has an outcome
+                 f"need_to_rerun or forall(m, range(NCJ()), implies(CJL()[m].state == {NS_}, forall(x, CJL()[m].blocked_by, x not in NC())))",
+             ]},
+             2: {"invariant": [
+                 "subset(NC(), ghost.collected)", "subset(loop_old(newly_completed), NC())",
+                 "forall(i, range(_k2), _it2[i].name in NC())",
+                 "subset(failed_jobs, NC())", "forall(x, failed_jobs, x in ghost.collected_failed)",
+                 "forall(i, range(_k2), implies(_it2[i].return_code != 0, _it2[i].name in failed_jobs))",
+             ] + UC_JOBS[2:3]},
+             3: {"invariant": UC_COMMON + UC_PENDING[:1] + [
+                 "forall(k, range(len(canceled_jobs)), canceled_jobs[k].name in NC() or exists(i, range(len(new_results)), new_results[i].name == canceled_jobs[k].name))",
+                 "subset(failed_jobs, NC())", "forall(x, failed_jobs, x in ghost.collected_failed)",
+                 "need_to_rerun or len(new_results) == 0",
+                 # jobs already visited in this pass that are still waiting do not wait for a completed name
+                 f"forall(i, range(_k3), implies(_it3[i].state == {NS_}, forall(x, _it3[i].blocked_by, x not in NC())))",
+                 f"forall(i, range(_k3, len(_it3)), _it3[i].state == {NS_})",
+                 "newly_completed == loop_old(newly_completed) and failed_jobs == loop_old(failed_jobs)",
+                 f"forall(m, range(NCJ()), CJL()[m].state == loop_old(CJL()[m].state) or CJL()[m].state == {D_})",
+             ]},
+         },
+         ensures=[
+             "subset(result[0], ghost.collected)",
+             "subset(old(ghost.collected), ghost.collected) and subset(old(ghost.collected_failed), ghost.collected_failed)",
+         ] + [c.replace("NC()", "result[0]").replace("canceled_jobs", "result[1]") for c in UC_JOBS + UC_CANCELED] + [
+             "forall(k, range(len(result[1])), result[1][k].name in result[0])",
+             f"forall(m, range(NCJ()), implies(CJL()[m].state == {NS_}, forall(x, CJL()[m].blocked_by, x not in result[0])))",
+         ],
+         raises={"Timeout": {"ensures": [], "frame": False}},
+         modifies=["Job.state", "Job.blocked_by", "ghost.collected", "ghost.collected_failed",
+                   "Result.name", "Result.return_code", "Result.status", "Result.exec_time_s", "Result.completion_time", "Result.hpc_job_id",
+                   "ResultsAggregator._filename", "ResultsAggregator._lock_file", "ResultsAggregator._timeout",
+                   "ResultsAggregator._delimiter", "ResultsAggregator._is_node"])
